@@ -31,14 +31,14 @@ def strip_fn_types(t):
     return re.sub(r"fn\([^()]*(\([^()]*\)[^()]*)*\)->[^,>]*", "", t)
 
 
-def tracing_rule(F, R, rid, markers, hb):
+def tracing_rule(F, R, rid, markers, hb, every_path=True, allow=None, floor=15):
     """type-directed tracing completeness for the given marker types (shared with C06.R for the slot recycler)"""
     # ---------------- a
     n_methods = 0
     for marker in markers:
         ms = [f for f in F.fns.values()
               if re.search(r"\{impl \w+(<[^}]*>)? for %s\}::visit_\w+$" % marker, f.name)]
-        R.floor(rid, "visit methods of %s" % marker, len(ms), 15)
+        R.floor(rid, "visit methods of %s" % marker, len(ms), floor)
         for fn in sorted(ms, key=lambda f: f.name):
             n_methods += 1
             kind = fn.name.rsplit("::", 1)[1]
@@ -54,7 +54,10 @@ def tracing_rule(F, R, rid, markers, hb):
                                    nontrivial=False)
                             continue
                         ok = (a["short"], f) in rd
-                        if ok and a["kind"] == "struct":
+                        if allow and (marker, a["short"], f) in allow:
+                            R.inst(rid, key, True, sample={"allowlisted": allow[(marker, a["short"], f)]}, nontrivial=False)
+                            continue
+                        if ok and a["kind"] == "struct" and every_path:
                             # ... and on every path: the reads form a cut between entry and every return
                             rb = hm.reader_blocks(F, fn, a["short"], f)
                             cut, w = fn.every_path_passes_from([0], fn.returns(), rb)
@@ -75,12 +78,9 @@ def tracing_rule(F, R, rid, markers, hb):
             a = F.adt(adt)
             for v, f, ty, ms_ in hm.hb_fields(F, a, hb):
                 key = "%s::visit_continuation / %s.%s" % (marker, adt, f)
-                if (adt, f) in FIELD_ALLOW:
+                if (adt, f) in FIELD_ALLOW or (allow and (marker, adt, f) in allow):
                     continue
                 ok = (adt, f) in rd
-                allow = None
-                if marker == "GlobalSlotRecycler" and (adt, f) == ("StackFrameAttachments", "handler"):
-                    allow = None
                 R.inst(rid, key, ok,
                        "%s::visit_continuation does not read %s.%s : %s of a closed continuation: values held only by a "
                        "captured continuation's %s are not marked" % (marker, adt, f, ty, f), fn.loc(),
